@@ -18,7 +18,7 @@ import (
 func init() {
 	fw.Register(&fw.Prop{
 		ID: "C12",
-		Rule: "inputs: (1) exhaustive table orphans 1–4 × widows 1–4 × paragraph length 1–8 × room 0–8 lines after a leading block; (2) exhaustive table of break-after × break-before value pairs (10 × 10) in four nesting variants at a natural page end; (3) random flows of 2–10 items, up to ~25 blocks (fixed-height empty blocks, Ahem paragraphs of 1–9 one-word lines with explicit px line-height, one level of nesting; zero vertical margins; 3% of the documents on pages lower than a line, 4% on A4 pages) with break-before/after/inside, orphans, widows, page names, and 0–6 @page rules (:first/:left/:right/:blank/named/:nth(), author and user origin, !important) setting integer size, margins, padding, page counters and an @bottom-center counter box. " +
+		Rule: "inputs: (1) exhaustive table orphans 1–4 × widows 1–4 × paragraph length 1–8 × room 0–8 lines after a leading block; (2) exhaustive table of break-after × break-before value pairs (10 × 10) in four nesting variants at a natural page end; (3) exhaustive table of vertical padding/border arrangements (8 arrangements of a decorated box, paragraph or fixed-height block between two blocks × 4 border/padding splits × 22 page heights 40..124px in steps of 4, so that the page bottom falls on every 4px of the decorated block); (4) random flows of 2–10 items, up to ~25 blocks (fixed-height empty blocks, Ahem paragraphs of 1–9 one-word lines with explicit px line-height, one level of nesting; zero vertical margins; in 35% of the documents boxes, paragraphs and fixed-height blocks carry top and/or bottom padding and borders of 4–12px (box-decoration-break: slice; bottom ones on fixed-height blocks only in table 3); 3% of the documents on pages lower than a line, 4% on A4 pages) with break-before/after/inside, orphans, widows, page names, and 0–6 @page rules (:first/:left/:right/:blank/named/:nth(), author and user origin, !important) setting integer size, margins, padding, page counters and an @bottom-center counter box. " +
 			"A case is non-trivial when the laid-out document has at least two pages and at least one page end (forced or unforced) was decided by the break monitor; distinct = distinct input.",
 		N: func(tier string) int {
 			if tier == "thorough" {
@@ -57,10 +57,20 @@ func init() {
 				"repagination_docs":         300 * m,
 				"kind_ow-table":             nOW,
 				"kind_pair-table":           nPair - 12,
+				"kind_deco-table":           nDeco,
+				// vertical padding and borders: documents and pages that carry some, fragments whose used
+				// decorations and border-box bottom were compared, and unforced page ends where the content
+				// of the next unit fits and the bottom padding/border travelling with it does not
+				"docs_decorated":                      1200 * m,
+				"pages_with_decorations":              3000 * m,
+				"decorated_doc_fragments_checked":     15000 * m,
+				"ends_bottom_decoration_does_not_fit": 90 * m,
 			}
 		},
 		Assumptions: []string{
-			"flows are restricted to zero vertical margins/padding/borders, no floats, tables, footnotes, columns or absolutely positioned boxes (fragmentation of those has no closed-form expectation)",
+			"flows are restricted to zero vertical margins, no floats, tables, footnotes, columns or absolutely positioned boxes (fragmentation of those has no closed-form expectation); vertical padding and borders are integer px with box-decoration-break: slice (clone is not generated)",
+			"css-break-3 §4.2: no break point separates the top padding/border of a box from its first child or line, nor its last child or line from its bottom padding/border (auto heights leave no class C gap), so these decorations travel with the first / last unit of the box and count in what must fit",
+			"four patterns of /repo around bottom padding/border at a page end are open findings (first box of a page; fixed-height block; fragment made by findEarlierPageBreak; second layout in a space reduced for every child): they are recognised by narrow signatures and reported as known, only when nothing else is wrong with the document; bottom padding/border on fixed-height blocks is kept out of the random flows (table 3 only)",
 			"Ahem metrics: one 8-glyph word per line in a body of width 8em, explicit px line-height, so every line box is exactly line-height tall",
 			"where the specifications leave a choice (weight of :nth(); page name of a blank page; orphans counted per fragment or per box; which of two nested break-after sides wins; whether counter-reset:page suppresses the automatic increment) every reading is accepted",
 			"a forced side on break-before of the first block of the document (propagation to the root) is not generated",
@@ -366,6 +376,8 @@ func check(raw json.RawMessage) fw.Result {
 	}
 
 	// ---- (b)(c)(d) page ends
+	var known fw.Result // first occurrence of a pattern recorded as an open finding (see notes)
+	knownPage := make([]bool, np)
 	fl.exact = true
 	for _, u := range fl.units {
 		if u.h != math.Trunc(u.h) {
@@ -387,6 +399,13 @@ func check(raw json.RawMessage) fw.Result {
 		H := float64(pages[i].Height.V())
 		v := fl.checkPageEnd(first[i], last[i], H)
 		if v.sig != "" {
+			if strings.HasPrefix(v.sig, "overflow-bottom-decoration-") || v.sig == "break-decided-in-space-reduced-by-box-bottom-decoration" {
+				// pattern of an open finding: reported only if nothing else is wrong with the document
+				known.Fail(v.sig, sprintf("page %d: %s", i+1, v.msg))
+				res.Count("known_pattern_page_ends", 1)
+				knownPage[i] = true
+				continue
+			}
 			res.Fail(v.sig, sprintf("page %d: %s", i+1, v.msg))
 			return res
 		}
@@ -491,6 +510,7 @@ func check(raw json.RawMessage) fw.Result {
 			bottom := top + float64(p.Height.V())
 			// the first unit of a page is placed even when it does not fit (progress guarantee)
 			onlyFirst := first[i] >= 0 && last[i] == first[i] && fl.units[first[i]].tot() > float64(p.Height.V())
+			onlyFirst = onlyFirst || knownPage[i] // the overflow of that page is already reported
 			for _, g := range obs[i].frags {
 				it, sp := items[g.id], spans[g.id]
 				if it == nil {
@@ -507,6 +527,24 @@ func check(raw json.RawMessage) fw.Result {
 				}
 				if u1 == sp[1] {
 					wantB = [2]float64{float64(it.BorB), float64(it.PadB)}
+				}
+				// pattern of the open finding F-C12-split-fragment-stale-bottom: only where the content of
+				// the next unit of the block would still fit on the page, i.e. the block was laid out
+				// further and split afterwards by the search of an earlier break
+				stale := false
+				if u1 != sp[1] {
+					sum := fl.units[u1+1].pre + fl.units[u1+1].h
+					for k := first[i]; k <= u1; k++ {
+						sum += fl.units[k].tot()
+					}
+					fit, sure := fl.fits(sum, float64(p.Height.V()))
+					stale = fit || !sure
+				}
+				if stale && it.bottomDeco() > 0 && near(g.bt, wantT[0]) && near(g.pt, wantT[1]) && near(g.bb, float64(it.BorB)) && near(g.pb, float64(it.PadB)) {
+					known.Fail("split-fragment-stale-bottom", sprintf("page %d: the fragment of block %s holding units %d..%d (the block is units %d..%d) is not the last one and keeps the bottom padding %g and border %g of the block (box-decoration-break: slice leaves none at a break); known pattern: fragment made by looking for an earlier break after the whole box had been laid out",
+						i+1, g.id, u0, u1, sp[0], sp[1], g.pb, g.bb))
+					res.Count("known_pattern_fragments", 1)
+					continue
 				}
 				if !near(g.bt, wantT[0]) || !near(g.pt, wantT[1]) || !near(g.bb, wantB[0]) || !near(g.pb, wantB[1]) {
 					res.Fail("box-decoration", sprintf("page %d: the fragment of block %s holding units %d..%d (the block is units %d..%d) has border-top %g padding-top %g padding-bottom %g border-bottom %g, expected %g %g %g %g (declared: %d %d %d %d; box-decoration-break: slice)",
@@ -525,6 +563,12 @@ func check(raw json.RawMessage) fw.Result {
 					}
 				}
 				res.Count("decorated_doc_fragments_checked", 1)
+				if !onlyFirst && g.bottom() > bottom && !near(g.bottom(), bottom) && stale {
+					known.Fail("split-fragment-stale-bottom", sprintf("page %d: the fragment of block %s holding units %d..%d (the block is units %d..%d) is not the last one and its border box ends at y=%g, below the page content box (bottom %g); known pattern: fragment made by looking for an earlier break after the whole box had been laid out, which keeps the height of the whole box",
+						i+1, g.id, u0, u1, sp[0], sp[1], g.bottom(), bottom))
+					res.Count("known_pattern_fragments", 1)
+					continue
+				}
 				if !onlyFirst && g.bottom() > bottom && !near(g.bottom(), bottom) {
 					res.Fail("box-bottom-overflow", sprintf("page %d: the border box of block %s ends at y=%g, below the page content box (bottom %g), on a page that holds units %d..%d", i+1, g.id, g.bottom(), bottom, first[i], last[i]))
 					return res
@@ -613,6 +657,9 @@ func check(raw json.RawMessage) fw.Result {
 		}
 	}
 	res.Nontrivial = np >= 2 && boundaries >= 1
+	if known.Verdict == fw.Violation {
+		res.Fail(known.Sig, known.Msg)
+	}
 	res.Count("kind_"+in.Kind, 1)
 	if in.Engine == "gotext" {
 		res.Count("engine_gotext", 1)
